@@ -63,6 +63,10 @@ CLAIMS = {
    technique="decision-list conformance of ExtractContent with path-resolved phis; structural checks of the per-pass construction; guard-cut of the flag-dependent skips in the converter; global-reader scan",
    text="Decides the two-pass skeleton: pruning pass first, second pass with Default iff the first yields <= 499 words, document and count from the same pass; each pass uses fresh builder/converter over a deep clone; the flag-dependent skips are guarded by the complete documented exemptions and the patterns are used nowhere else. Not decided: the metamorphic equalities themselves.",
    design="4/C20"),
+ "C15": dict(
+   technique="decision-list conformance of the title candidate list, string-provenance walk over SSA for getDocumentTitle's results, belief rule (looked-up key must be inserted) and normalisation-chain agreement between the two sides of the title matcher, guard-cut for the title suppression",
+   text="Decides that the markup title (when present) is candidate 0 and is what Result.Title reports; that the heuristic title can only consist of <title>/<h1> text cut by substring-preserving operations, with a character-counted 15..150 gate that leaves a plain title untouched; that the whole normalised title is registered as a potential title and blocks are normalised by the same chain; and that a block labelled as title renders empty in both views. Not decided: which separator-delimited part of a long title is chosen.",
+   design="4/C15"),
  "C16": dict(
    technique="sink sanitisation by guard-cut (candidate admission in PrevNext), decision-path enumeration with URL stores as events (validators of numbered links, PrevPage/NextPage sinks), exhaustive classification of every PageInfo.URL / NextPagingURL writer in the module",
    text="Decides that every URL that can reach NextPage/PrevPage is \"\", or the normalised absolute href of an anchor that passed the parse + scheme://host/ prefix test (PrevNext) resp. parse + host equality + http(s) scheme (PageNumber), or a copy of such a URL; the only other source (the current document's own URL inserted by the detector) is filtered by a normalised comparison before PrevPage is set. Not decided: that the link is the right page (C17) and port/case subtleties of host comparison.",
